@@ -1,3 +1,4 @@
+import Driver.Borders
 import Driver.Escape
 import Driver.Layout
 import Driver.Paginate
